@@ -462,12 +462,22 @@ pub fn render(case: &Case) -> Rendered {
                 observe_maybe(&mut em, &m, &MVal { v, lib_none: true });
             }
             (Kind::List, Op::Set(i, k)) if key_ok(*k) => {
-                if *i < 0 || *i as usize >= list.len() {
-                    em.label("excluded:list-set-out-of-range");
-                    continue;
-                }
+                // an index outside 0..len-1 names no element: the list stays as it is (what `set` does for an index past
+                // the end, and the only reading under which `len`, `get`, `fold` and printing stay consistent)
                 em.stmt(&format!("list.set(c, {}, {})", i, uni[*k].lit()));
-                list[*i as usize] = uni[*k].clone();
+                if *i < 0 || *i as usize >= list.len() {
+                    em.label(if *i < 0 { "list:set-negative-index" } else { "list:set-beyond-end" });
+                } else {
+                    list[*i as usize] = uni[*k].clone();
+                }
+                let tag = if *i < 0 {
+                    "len-after-set-at-negative-index"
+                } else if *i as usize >= list.len() {
+                    "len-after-set-beyond-end"
+                } else {
+                    "len-after-set"
+                };
+                em.obs("list.len(c)", format!("{}", list.len()), tag);
             }
             (Kind::List, Op::Len) => {
                 em.obs("list.len(c)", format!("{}", list.len()), "len");
